@@ -27,10 +27,9 @@ def expectedOps : List String :=
   ["add_lazy", "add_plain", "add_self", "contains", "copy", "count", "getitem_array", "getitem_int", "getitem_list",
    "getitem_slice", "index", "iter", "len", "map", "map_each", "repeat", "reversed"]
 
-/-- the three branches of `__getitem__` (as coded, or with the 0-dimensional repair — whichever the tree has)
-reproduce the observed outcome of every catalogued argument kind -/
+/-- the three branches of `__getitem__` (the dispatch of the tree: a 0-dimensional array is integer-like) reproduce
+the observed outcome of every catalogued argument kind; a regression of fix 19448fa breaks this obligation -/
 theorem getitem_dispatch_ok :
-    (getitemRows.all fun r => getitemCoded r.feat == r.observed) = true ∨
     (getitemRows.all fun r => getitemRepaired r.feat == r.observed) = true := by decide
 
 theorem getitem_catalogue_ok : getitemRows.map (·.name) = expectedGetitemKinds := by decide
